@@ -176,7 +176,7 @@ CHECKS["C03"] = {
     "quick_fs": ["default", "checks"],
     "thorough_fs": ["default", "checks", "no_copy_impls", "both"],
     "technique": "reader/writer duality by replay in the value-partition abstract interpreter (the reader's MIR is interpreted on each cell with read primitives answered by the writer's emissions; result must be the affine form n); abstract interpretation of each code's MIR under its documented domain (affine + LP, pow2/ilog2 axioms, contracts); structural rule for default parameter selection",
-    "claim": "Partial, stated as such: (K1) for gamma, delta, zeta, minimal binary, pi, Rice, Golomb, exp-Golomb, omega and VByte, under the documented domains (values up to 2^64-2, zeta k in 1..=63, k <= 63, b >= 1, max >= 1) every overflow/shift/division assert, every ilog2 argument, every read_bits/write_bits width (<= 64) and every reachable panic of the write and len functions is discharged, on the default and the `checks` feature set - exactly the large-value / large-parameter corners the suite's grid does not settle; reader functions are checked up to stream-domain assumptions (a length read in unary is bounded only by what the writer emitted); (K3) each parameterless method forwards to the *_param method of the same code on self. (K2) for gamma, delta, zeta_k, pi_k, Rice_k and minimal binary (enumerated parameters, both endiannesses, non-table paths) and for EVERY value of the domain: interpreting the reader's MIR on each cell, with read_unary/read_bits(n) answered by the primitives the writer emitted on that cell (same order, same widths, low n bits of the written operand), consumes all of them and returns exactly n - round trip at the level of stream primitives, which together with C01/C02 (primitives round-trip at any offset) and C05 (tables = bit-by-bit) gives the property for these codes. Golomb_b (b enumerated) is covered the same way on residue classes n = b*y + r (K2.golomb: the reader returns b*y + r). exp-Golomb_k for k <= 3 (quick) on the classes n = 2^k*y + r. NOT decided: omega and VByte read-back (K1 only), exp-Golomb for larger k, parameters outside the enumerated lists; a reader that regroups the same bits into different primitives than the writer is reported as undecidable by K2 (violation), by design.",
+    "claim": "Partial, stated as such: (K1) for gamma, delta, zeta, minimal binary, pi, Rice, Golomb, exp-Golomb, omega and VByte, under the documented domains (values up to 2^64-2, zeta k in 1..=63, k <= 63, b >= 1, max >= 1) every overflow/shift/division assert, every ilog2 argument, every read_bits/write_bits width (<= 64) and every reachable panic of the write and len functions is discharged, on the default and the `checks` feature set - exactly the large-value / large-parameter corners the suite's grid does not settle; reader functions are checked up to stream-domain assumptions (a length read in unary is bounded only by what the writer emitted); (K3) each parameterless method forwards to the *_param method of the same code on self. (K2) for gamma, delta, zeta_k, omega, pi_k, Rice_k and minimal binary (enumerated parameters, both endiannesses, non-table paths) and for EVERY value of the domain: interpreting the reader's MIR on each cell, with read_unary/read_bits(n) answered by the primitives the writer emitted on that cell (same order, same widths, low n bits of the written operand), consumes all of them and returns exactly n - round trip at the level of stream primitives, which together with C01/C02 (primitives round-trip at any offset) and C05 (tables = bit-by-bit) gives the property for these codes. Golomb_b (b enumerated) is covered the same way on residue classes n = b*y + r (K2.golomb: the reader returns b*y + r). exp-Golomb_k for k <= 3 (quick) on the classes n = 2^k*y + r. omega (both endiannesses; the reader's peek_bits(1)/skip_bits_after_peek(1)/read_bits(l+1) are answered from the writer's blocks, the first stream bit of a block being determined on every cell). NOT decided: VByte read-back (K1 only), exp-Golomb for larger k, table-driven read paths (C05), parameters outside the enumerated lists; a reader that regroups the same bits into different primitives than the writer is reported as undecidable by K2 (violation), by design.",
     "note": "Trusted: rustc MIR, exporter, contracts incl. codeword length bounds, LP entailment. Lemmas L4-L7 and the stream-domain assumption are listed in the evidence and never counted as discharged.",
     "explanation": "E3 obligations + structural rule",
 }
